@@ -79,3 +79,17 @@ package types
 //@   axiom result == hnn(h)
 //@   assigns argon_time, argon_mem, argon_threads, argon_keylen, argon_saltlen
 //@   noframe
+
+// ---- sender recovery as an observer (C15) -------------------------------------------------------
+// Trusted: types.Sender either fails or returns the sender determined by signer and transaction
+// (the signature cache it fills is not visible to contracts).
+//@ func Sender
+//@   trusted
+//@   ensures (result1 == nil) == txsenderok(signer, tx) && (result1 == nil ==> result0 == txsender(signer, tx))
+//@   assigns nothing
+
+// Trusted: the cached encoded size is an uninterpreted number; computing it changes nothing a
+// contract mentions.
+//@ func Transaction.Size
+//@   trusted
+//@   assigns nothing
